@@ -2,8 +2,10 @@ package parser
 
 import (
 	"fmt"
+	"strconv"
 	"strings"
 	"unicode"
+	"unicode/utf8"
 )
 
 // ExpandedLexer tokenizes .glyphx source code (human-readable expanded syntax)
@@ -88,6 +90,10 @@ func (l *ExpandedLexer) Tokenize() ([]Token, error) {
 		if tok.Type == ILLEGAL {
 			if strings.HasPrefix(tok.Literal, "unterminated_string:") {
 				return nil, fmt.Errorf("unterminated string at line %d, column %d", tok.Line, tok.Column)
+			}
+			if utf8.RuneCountInString(tok.Literal) > 1 {
+				// a descriptive message from a sub-lexer (bad escape), not a character
+				return nil, fmt.Errorf("%s at line %d, column %d", tok.Literal, tok.Line, tok.Column)
 			}
 			return nil, fmt.Errorf("invalid character '%c' at line %d, column %d", tok.Literal[0], tok.Line, tok.Column)
 		}
@@ -461,8 +467,41 @@ func (l *ExpandedLexer) readString() Token {
 				builder.WriteByte('\'')
 			case '\\':
 				builder.WriteByte('\\')
+			// The escapes below, and the rejection of unknown ones, mirror
+			// Lexer.readString: a string literal means the same in .glyph and
+			// in .glyphx.
+			case '0':
+				builder.WriteByte(0)
+			case 'a':
+				builder.WriteByte('\a')
+			case 'b':
+				builder.WriteByte('\b')
+			case 'f':
+				builder.WriteByte('\f')
+			case 'v':
+				builder.WriteByte('\v')
+			case 'x':
+				hex := l.readHexDigits(2)
+				if len(hex) != 2 {
+					return Token{Type: ILLEGAL, Literal: "invalid \\x escape: expected 2 hex digits", Line: startLine, Column: startColumn}
+				}
+				val, err := strconv.ParseUint(hex, 16, 8)
+				if err != nil {
+					return Token{Type: ILLEGAL, Literal: fmt.Sprintf("invalid \\x escape: %v", err), Line: startLine, Column: startColumn}
+				}
+				builder.WriteByte(byte(val))
+			case 'u':
+				hex := l.readHexDigits(4)
+				if len(hex) != 4 {
+					return Token{Type: ILLEGAL, Literal: "invalid \\u escape: expected 4 hex digits", Line: startLine, Column: startColumn}
+				}
+				val, err := strconv.ParseUint(hex, 16, 32)
+				if err != nil {
+					return Token{Type: ILLEGAL, Literal: fmt.Sprintf("invalid \\u escape: %v", err), Line: startLine, Column: startColumn}
+				}
+				builder.WriteRune(rune(val))
 			default:
-				builder.WriteByte(l.ch)
+				return Token{Type: ILLEGAL, Literal: fmt.Sprintf("unknown escape sequence: \\%c", l.ch), Line: startLine, Column: startColumn}
 			}
 			l.readChar()
 		} else {
@@ -488,6 +527,21 @@ func (l *ExpandedLexer) readString() Token {
 		Line:    startLine,
 		Column:  startColumn,
 	}
+}
+
+// readHexDigits reads up to n hex digits without consuming the character
+// after them (see Lexer.readHexDigits).
+func (l *ExpandedLexer) readHexDigits(n int) string {
+	var hex strings.Builder
+	for range n {
+		next := l.peekChar()
+		if !isHexDigit(next) {
+			break
+		}
+		l.readChar()
+		hex.WriteByte(l.ch)
+	}
+	return hex.String()
 }
 
 func (l *ExpandedLexer) skipWhitespaceExceptNewlines() {
